@@ -30,7 +30,7 @@ func TestMain(m *testing.M) {
 	vstat.Main(m)
 }
 
-var accountKinds = []string{"transfer", "transfer", "token", "token", "call-revert", "call-forward", "call-fwdrevert", "call-killrevert", "pay-suicider", "call-suicide", "call-issue", "call-store", "create", "prefund-create"}
+var accountKinds = []string{"transfer", "transfer", "token", "token", "call-revert", "call-forward", "call-fwdrevert", "call-killrevert", "pay-suicider", "call-suicide", "call-issue", "call-store", "create", "prefund-create", "create-and-die"}
 
 // resultOf is everything the property lists as the result of executing a block, in a comparable form.
 type resultOf struct {
